@@ -121,11 +121,17 @@ func (j *Job) String() string {
 
 func fallbackKinds(primary string) []string {
 	var r []string
+	if primary == "cvc5-int" {
+		// arithmetic harnesses: the one-shot integer back end first, it decides what the
+		// incremental one cannot
+		return []string{"cvc5-int-oneshot", "z3-new", "cvc5", "z3"}
+	}
 	for _, k := range []string{"z3-new", "cvc5", "z3", "cvc5-int"} {
 		if k != primary {
 			r = append(r, k)
 		}
 	}
+	r = append(r, "cvc5-int-oneshot")
 	return r
 }
 
@@ -163,7 +169,7 @@ func runJob(p *Program, j *Job, trace bool, smtlog string, conc *replayVec) *Job
 	// other back ends with the full limit (z3 4.8 is the fastest per query but times out on
 	// some UF-heavy queries that z3 5.1 and cvc5 decide in under a second)
 	pto := to
-	if (kind == "z3" || kind == "z3-new") && pto > 5000 {
+	if (kind == "z3" || kind == "z3-new" || kind == "cvc5-int") && pto > 5000 {
 		pto = 5000
 	}
 	if lw != nil {
